@@ -209,7 +209,7 @@ def run_check(pid, modnames, tier, seed, jobs, only=None, verbose=False):
         "property_id": pid,
         "tier": tier,
         "seed": seed,
-        "level": "model_checking",
+        "level": getattr(mods[modnames[0]], "LEVEL", "model_checking"),
         "coverage": {
             "states": max(paths, 1),
             "transitions": max(decisions, 1),
